@@ -484,6 +484,11 @@ func (r *Rig) autoJoinQuiet() bool {
 	return true
 }
 
+// gateCount: the gate's game count only. The open-game manager has no lock of its own; polling loops must not iterate its
+// participant map while the engine's continue handler may be inside Setup (Go aborts the process on a concurrent map
+// iteration and write) — they look at the count, and the map is read once the count has settled.
+func (r *Rig) gateCount() int { return r.hk.OpenGameManager().GetState().GameCount }
+
 func (r *Rig) gateState() (int, map[string]bool, map[string]int) {
 	st := r.hk.OpenGameManager().GetState()
 	ready := map[string]bool{}
